@@ -120,6 +120,11 @@ def make_net(rng, cls):
         net.nodes[rng.choice(ns)]["tags"] = rng.choice(({"b", "a"}, frozenset({2, 1}), [3, 1, 2], {"k": [1]}, (1, 2)))
     if rng.random() < 0.5:
         net["meta"] = rng.choice(({"b", "a"}, [3, 1, 2], {"k": [1]}))
+    # attribute NAMES that are not strings (set through the attribute dicts, the documented way to edit attributes)
+    if es and rng.random() < 0.3:
+        net.edges[rng.choice(es)][rng.choice((2020, 1.5, ("k", 1)))] = "named-by-a-non-string"
+    if ns and rng.random() < 0.3:
+        net.nodes[rng.choice(ns)][rng.choice((2020, 7, ("k", 1)))] = "named-by-a-non-string"
     return net
 
 
@@ -213,8 +218,8 @@ def call_method(owner, name, net, rng, td):
         idc = some_n if owner == "nodes" else some_e
         stat = "degree" if owner == "nodes" else "size"
         table = {
-            "members": lambda: (v.members(), v.members(dtype=dict), v.members(idc)) if owner == "edges" else None,
-            "memberships": lambda: (v.memberships(), v.memberships(idc)) if owner == "nodes" else None,
+            "members": lambda: (v.members(), v.members(dtype=dict), v.members(idc), v.filterby("size", 2, "geq").members(dtype=dict), v([idc] if es else []).members()) if owner == "edges" else None,
+            "memberships": lambda: (v.memberships(), v.memberships(idc), v.filterby("degree", 1, "geq").memberships()) if owner == "nodes" else None,
             "dimembers": lambda: (v.dimembers(), v.dimembers(dtype=dict), v.dimembers(idc)) if di and owner == "edges" else None,
             "dimemberships": lambda: (v.dimemberships(), v.dimemberships(idc)) if di and owner == "nodes" else None,
             "head": lambda: (v.head(), v.head(dtype=dict), v.head(idc)) if di and owner == "edges" else None,
@@ -226,7 +231,7 @@ def call_method(owner, name, net, rng, td):
             "neighbors": lambda: v.neighbors(idc, rng.choice((1, 2))),
             "duplicates": lambda: list(v.duplicates()),
             "lookup": lambda: list(v.lookup(rng.sample(es if owner == "nodes" else ns, min(2, len(es if owner == "nodes" else ns))))),
-            "isolates": lambda: list(v.isolates()) if owner == "nodes" else None,
+            "isolates": lambda: (list(v.isolates()), list(v.isolates(ignore_singletons=True)) if not di else None) if owner == "nodes" else None,
             "singletons": lambda: list(v.singletons()) if owner == "edges" and not di else None,
             "empty": lambda: list(v.empty()) if owner == "edges" else None,
             "maximal": lambda: (list(v.maximal()), list(v.maximal(strict=True))) if owner == "edges" and not di else None,
